@@ -532,7 +532,7 @@ def run(ctx):
     if not mdl_ok:
         log("MODEL DOES NOT COMPILE:\n" + vlib.tail_err(mdl_out))
         raise SystemExit(2)
-    proofs_ok, info = ctx.check_proofs(make_targets=["Codec/Proofs.vo", "Properties/C12.vo"],
+    proofs_ok, info = ctx.check_proofs(make_targets=["Codec/Proofs.vo", "Codec/Isolation.vo", "Properties/C12.vo"],
                                        gate_paths=["Codec", "Common", "Properties/C12"])
     mok, mout, _ = vlib.model_build("Codec")
     if not mok:
